@@ -57,7 +57,8 @@ SUBST_KINDS = {
     'R12': 'pattern destructuring in closure/let position => field access',
     'R15': 'Deref of a deref_buffer! newtype made explicit: x[i] => x.buffer[i], x.len() => x.buffer.len(), and float compound assignment on it expanded (X op= E => X = X op E)',
     'R16': 'unary minus on a parenthesised float expression routed through the contracted wrapper f64_neg: -(E) => f64_neg(E)',
-    'R18': 'file-level const of the source file, referenced by the extracted text and not defined in the unit, copied in as pub const',
+    'R18': 'file-level const of the source file (or a const of src/constants.rs reached by a crate::constants:: path, the path rewritten to the bare name), referenced by the extracted text and not defined in the unit, copied in as pub const',
+    'R19': 'f64 library method without a specification in the unit => uninterpreted total specification (result == fx_NAME_spec(args)), spliced after float_axioms.inc',
     'R17': 'trait default method verified at one implementing type: the associated type / accessor is named at that instance (Self::Coef => Coefficients, self.alpha() => self.alpha)',
     'R14': 'explicit type ascription on a let (the type rustc infers; needed because spliced spec text mentions the variable before inference completes)',
     'R13': 'contract splice on a nested fn or closure header (adds specification text and a name for the return value; executable text unchanged)',
@@ -246,7 +247,10 @@ class Extractor:
     # ------------------------------------------------------------------
     def run(self):
         lines = self.read_spec_lines(self.unit_path)
+        n0 = len(lines)
         lines = add_float_extras(lines)
+        if len(lines) > n0:
+            self.count('R19', (len(lines) - n0) // 2)
         i = 0
         raw_buf = []
         while i < len(lines):
